@@ -122,7 +122,8 @@ def _mgr_case(rng, size, tf, fill, ha, life, extra_passes=False, malformed=False
 
 def _life(rng, tf):
     base = gen.tf_seconds(tf) if tf else rng.choice([1, 60, 3600])
-    return base * rng.randint(0, 40)
+    # not only whole multiples of the timeframe: the cut-off newest - lifespan may fall inside a bucket
+    return base * rng.randint(0, 40) + rng.choice([0, 0, 0, 1, base // 2, base - 1, 7])
 
 
 @component("manager.collapse", view="ohlcv")
@@ -264,6 +265,8 @@ def gen_hexital(rng, size, ha_ok=False, life_ok=False, programs=True, enc=None):
             sp["tf"] = f"{unit}{k * mult}"
             if rng.random() < 0.25:
                 sp["tf"] = sp["tf"].lower()
+        if rng.random() < 0.12:
+            sp["ha"] = True     # a member-level candlestick type: inside a Hexital the member's manager (the Hexital's) decides
         members.append(sp)
     # an indicator fed by another member's reading (a late-starting input), registered after (or before) it
     if rng.random() < 0.3:
@@ -283,7 +286,7 @@ def gen_hexital(rng, size, ha_ok=False, life_ok=False, programs=True, enc=None):
     parts = gen.split_by(stream, sched)
     enc = enc or rng.choice(["candle", "dict", "list", "tlist"])
     ha = ha_ok and rng.random() < 0.3
-    life = base_step * rng.randint(5, 60) if (life_ok and rng.random() < 0.3) else None
+    life = base_step * rng.choice([0, 1, 3, 5, 20, 60]) + rng.choice([0, 0, 1, base_step // 2]) if (life_ok and rng.random() < 0.3) else None
     lines = []
     member_names = []
     for sp in members:
@@ -294,7 +297,9 @@ def gen_hexital(rng, size, ha_ok=False, life_ok=False, programs=True, enc=None):
             pass
     if not member_names:
         member_names = ["SMA_5"]
-    lines.append(f"hnew tf={htf or '-'} fill={int(rng.random() < 0.3 and htf is not None)} ha={int(ha)} life={'-' if life is None else life} "
+    # Hexital-level gap filling also without an own timeframe: it then applies to the members' managers
+    hfill = rng.random() < 0.3 and (htf is not None or any(m.get("tf") for m in members))
+    lines.append(f"hnew tf={htf or '-'} fill={int(hfill)} ha={int(ha)} life={'-' if life is None else life} "
                  + wire.enc_candles(parts[0]))
     lines += ["hcalc", "hsnap"]
     names = []
